@@ -226,9 +226,24 @@ class CaseHooks(EBB3Hooks):
             if v.label.startswith('reply#') or v.label.startswith('havoc:') or \
                     v.label.startswith('loopvar:'):
                 return True
-            if v.label in ('decode', 'm:strip', 'm:rstrip', 'm:lstrip') and v.args:
+            if v.label in ('decode', 'm:strip', 'm:rstrip', 'm:lstrip', 'm:upper', 'm:lower',
+                           'm:casefold') and v.args:
                 return self.is_reply(v.args[0])
         return False
+
+    @staticmethod
+    def case_folded(v):
+        """'upper' / 'lower' if the text value went through str.upper() / lower() on its way."""
+        while isinstance(v, Opaque) and v.args:
+            if v.label == 'm:upper':
+                return 'upper'
+            if v.label in ('m:lower', 'm:casefold'):
+                return 'lower'
+            if v.label in ('decode', 'm:strip', 'm:rstrip', 'm:lstrip', 'slice'):
+                v = v.args[0]
+            else:
+                break
+        return None
 
     def name_form(self, v):
         if isinstance(v, Opaque) and v.label == 'item' and self.is_request(v.args[0]) \
@@ -364,6 +379,9 @@ class CaseHooks(EBB3Hooks):
         if isinstance(cond, In) and isinstance(cond.item, Str) and cond.item.is_lit() and \
                 cond.item.text() == 'Err:' and self.is_reply(cond.container):
             self.text_use(cond.container, "'Err:' in reply")
+            fold = self.case_folded(cond.container)
+            if fold == 'upper' or fold == 'lower':
+                return False     # 'Err:' is mixed case: it never occurs in case-folded text
             return has_err
         if isinstance(cond, Truthy) and self.is_reply(cond.v):
             return not empty
@@ -445,6 +463,18 @@ def check_tables(ck, eng, name):
                       '%s: %s' % (q, hk.bytes_used), fn.loc(), key='%s::bytes-as-text' % q)
                 ck.ob('C05-D3-index-guard', inst, not (hk.bad_index and 'request' in hk.bad_index),
                       '%s: %s' % (q, hk.bad_index), fn.loc(), key='%s::request-index' % q)
+                # D2: the first line that arrives is the reply - a line that is not empty is never
+                # read past (skipping a wrong-name or error line would attribute the next line,
+                # which belongs to a later request, to this one and lose the fault)
+                if not reply[1] and not hk.uncountable:
+                    n_reads = {sum(1 for e in o.state.effects
+                                   if is_port_call(e, ('readline', 'read', 'read_until')))
+                               for o in outs}
+                    ck.ob('C05-D2-first-line-is-the-reply', inst, n_reads == {1},
+                          '%s with reply class "%s" (a line arrives at the first read) performs '
+                          '%s reads: only empty reads may be repeated; a non-empty line is the '
+                          'reply, whatever it says' % (q, reply[0], sorted(n_reads)), fn.loc(),
+                          key='%s::reads-past-a-line' % q)
                 # D4: success table
                 success = (not reply[1]) and reply[2] and not reply[3]
                 for o in outs:
@@ -550,6 +580,17 @@ def exemption_in_path(path):
 
 
 def check_faults(ck, eng, requests):
+    from ..ebb3 import EBB3Hooks
+    EBB3Hooks.os_faults = True
+    eng._sum.clear()
+    try:
+        return _check_faults(ck, eng, requests)
+    finally:
+        EBB3Hooks.os_faults = False
+        eng._sum.clear()
+
+
+def _check_faults(ck, eng, requests):
     n_query_sites = 0
     for name in requests:
         fn = eng.method(name)
